@@ -237,6 +237,10 @@ def finish(ctx: Ctx, rule: str, assumptions=(), level="exploration", write=True)
 
     replay_dir = os.path.join(VERIF, "replay", ctx.prop)
     replay_paths = {}
+    if write and os.path.isdir(replay_dir):
+        for old_file in os.listdir(replay_dir):
+            if old_file.endswith(".json"):
+                os.unlink(os.path.join(replay_dir, old_file))
     if new and write:
         os.makedirs(replay_dir, exist_ok=True)
         for key in new:
@@ -326,7 +330,7 @@ def finish(ctx: Ctx, rule: str, assumptions=(), level="exploration", write=True)
     if new:
         for key in new:
             w = ctx.violations[key][0]
-            print("  violation key=%s count=%d detail=%s" % (key, ctx.violation_counts[key], w["detail"][:300]))
+            print("  violation key=%s count=%d detail=%s" % (key, ctx.violation_counts[key], ascii(w["detail"][:300])))
             print("VIOLATION property=%s replay=%s" % (ctx.prop, replay_paths.get(key, "-")))
         return 1
     if inconclusive:
